@@ -41,7 +41,7 @@ int main(int argc, char **argv)
         else if (a == "--replay") { mode = "replay"; replay_path = next(); }
         else if (a == "--one") { mode = "one"; type = next()[0]; one_hex = next(); }
         else if (a == "--type") type = next()[0];
-        else if (a == "--tier") R.cx.tier = (next() == "thorough") ? 1 : 0;
+        else if (a == "--tier") { std::string t = next(); R.cx.tier = (t.rfind("thorough", 0) == 0) ? 1 : 0; R.cx.tailmode = t.size() > 5 && t.compare(t.size() - 5, 5, "+tail") == 0; }
         else if (a == "--stats") R.stats_path = next();
         else if (a == "--scratch") R.scratch_path = next();
         else if (a == "--known") R.cx.known = split_set(next());
